@@ -65,9 +65,10 @@ def compatible_sound_statement (F : Type) [FloatOps F] : Prop :=
     ∀ v, InSet a v → ∃ r, validate b v none = .ok r
 
 /-- proved part: a passing check is sound whenever no `relative_resolution` of the second type exceeds 1
-(the law "the tolerance band is order convex") and no member that is optional in a struct of the first type
-is mandatory in the second (`StructOf.compatible` does not look at `self.optional`: recorded finding).
-Missing for the full statement: exactly these two side conditions. -/
+(the law "the tolerance band is order convex") and no struct of the first type with *all* members optional —
+the constructor's default, which `StructOf.compatible` takes as "not specified" — meets a struct with a
+mandatory member (`OptionalRespected`; recorded finding).  Missing for the full statement: exactly these
+two side conditions, each with a proved counterexample below. -/
 theorem compatible_sound_partial (a b : DType F) (ha : a.WF) (hb : b.WF) (hal : GridAligned a) (hbl : GridAligned b)
     (hres : ResLeOne b) (hopt : OptionalRespected a b) (h : compatible a b = .ok ()) :
     ∀ v, InSet a v → ∃ r, validate b v none = .ok r :=
